@@ -93,7 +93,8 @@ class EndpointRoles:
         E, area start S, area length L), e.g.  len  vs  area_end - address  is  ne  vs  oe. Wrap-around of the
         subtractions is not modelled here (overflow checks are C08.total's)."""
         d = U.affine_norm(("bin", "Sub", a, b, 64))
-        if d[1] != 0:
+        off = d[1] if d[1] < (1 << 63) else d[1] - (1 << 64)
+        if off not in (0, 1, -1):
             return None
         vec = {}
         for leaf, c in d[0].items():
@@ -119,7 +120,7 @@ class EndpointRoles:
                     diff[k] = diff.get(k, 0) - v
                 diff = {k: v for k, v in diff.items() if v}
                 if diff == vec:
-                    return x, y
+                    return (x, y) if off == 0 else (x, y, off)
         return None
 
 
@@ -131,7 +132,19 @@ def make_cmp_oracle(roles, unroled):
         ra, rb = roles.role(a), roles.role(b)
         if ra is None or rb is None:
             dr = roles.difference_roles(a, b) if hasattr(roles, "difference_roles") else None
-            if dr is not None and all(r in o for r in dr):
+            if dr is not None and len(dr) == 3 and all(r in o for r in dr[:2]):
+                # a - b = (X - Y) + c with c = +-1 over the integers: decided where the sign of X - Y settles it
+                x_, y_, c_ = o[dr[0]], o[dr[1]], dr[2]
+                sgn = (x_ > y_) - (x_ < y_)
+                if c_ == -1:
+                    tab = {"Lt": 1 if sgn <= 0 else None, "Le": 1 if sgn <= 0 else None, "Gt": 0 if sgn <= 0 else None,
+                           "Ge": int(sgn > 0), "Eq": 0 if sgn <= 0 else None, "Ne": 1 if sgn <= 0 else None}
+                    tab["Lt"] = int(sgn <= 0)
+                else:
+                    tab = {"Lt": 0 if sgn >= 0 else None, "Le": int(sgn < 0), "Gt": int(sgn >= 0), "Ge": 1 if sgn >= 0 else None,
+                           "Eq": 0 if sgn >= 0 else None, "Ne": 1 if sgn >= 0 else None}
+                return tab[op]
+            if dr is not None and len(dr) == 2 and all(r in o for r in dr):
                 ra, rb = dr
             else:
                 if ra is not None or rb is not None:
